@@ -218,6 +218,55 @@ for _c in CONTRACTS:
     globals()[_c.__name__] = _c
 
 
+# ------------------------------------------------------------------------------------------- a slice whose class derives from the slice class
+class DerivedSliceTopology(ExperimentTopology):
+    """what a user library does: its own slice class on top of the published one (nothing overridden)"""
+
+
+class ValidateDerivedSlice(Contract):
+    """the rules are those of the slice whether the topology object is an ExperimentTopology or an instance of a class derived
+    from it: L2STS services with 0..3 shared ports on as many nodes at symbolic sites, judged by the published table"""
+    target = 'fim.user.topology:Topology.validate'
+    extra_targets = ('fim.user.network_service:NetworkService.validate_constraints',)
+    props = ('C10',)
+    bounded = topo.BOUND + '; one service type (L2STS), 0..3 interfaces'
+    summaries = topo.SUMMARIES
+    max_paths = 4000
+    cost = 30
+
+    def inputs(self, g):
+        k = g.pick([0, 1, 2, 3], 'number of connected interfaces')
+        return [PList([g.atom(f'site{i}') for i in range(k)]), g.pick(['derived class', 'published class'], 'class of the slice object')], {}
+
+    def body(self, h, sites, which):
+        sites = topo.pylist(sites)
+        topo.fresh_world(h)
+        t = h.call(DerivedSliceTopology if which == 'derived class' else ExperimentTopology)
+        ifs = []
+        for i, s in enumerate(sites):
+            n = h.call(h.getattr(t, 'add_node'), name=f'n{i}', site=s)
+            c = h.call(h.getattr(n, 'add_component'), name='nic', model_type=CMT('SharedNIC_ConnectX_6'))
+            ifs.append(topo.iface(h, c, 'nic-p1'))
+        st, ns = h.attempt(h.getattr(t, 'add_network_service'), name='svc', nstype=ServiceType.L2STS,
+                           interfaces=PList(ifs) if h.mode == 'sym' else ifs)
+        if st == 'exc':
+            return 'refused at connect'
+        st, _ = h.attempt(h.getattr(t, 'validate'))
+        return 'valid' if st == 'ok' else 'invalid'
+
+    @staticmethod
+    def _c(pre, post):
+        if not returned(post) or post.result == 'refused at connect':
+            return False
+        sites = topo.pylist(pre.args[0])
+        return Iff(post.result == 'valid', oracle('L2STS', sites, ['SharedPort'] * len(sites), None, None))
+
+    ensures = {'validate.iff_table_allows_whatever_the_slice_class': lambda pre, post: ValidateDerivedSlice._c(pre, post)}
+
+
+CONTRACTS.append(ValidateDerivedSlice)
+
+
 # ------------------------------------------------------------------------------------------- port mirror; declared site kept
 from fim.slivers.network_service import MirrorDirection
 
